@@ -102,6 +102,22 @@ def first_diff(a, b, path=""):
     return None if a == b else (path, a, b)
 
 
+LINK_SIGNATURE = {"function": "clustering.link_clustering", "taxa": "strings"}
+
+
+def link_policy():
+    """What a hash-seed dependence of link_clustering called directly with STRING taxa means is decided by
+    known_findings.json: an entry of property C18 whose signature contains LINK_SIGNATURE with status "fixed"
+    (the repair is in /repo: a difference is a VIOLATION with a failing input), status "known" (KNOWN-FINDING
+    line), or no entry (recorded in the evidence only: cognate detection passes integer nodes, which is
+    deterministic, so the text of C18 is not violated by the direct call)."""
+    for e in report.known_findings(PROP):
+        sig = e.get("signature") or {}
+        if all(sig.get(k) == v for k, v in LINK_SIGNATURE.items()):
+            return e.get("status")
+    return None
+
+
 def end_to_end(run, outs, paths, datasets, hashseeds, spec):
     """(b) the seeded pipeline in every subprocess must give identical outputs; (c) repetitions
     inside each subprocess; the scorer must be symmetric.  Returns number of failing inputs."""
@@ -144,8 +160,20 @@ def end_to_end(run, outs, paths, datasets, hashseeds, spec):
                 reported = True
             stats["repetitions_checked"] += o.get("repeat_checked", 0)
             if h != h0 and "error" not in ref and o.get("aux") != ref.get("aux"):
-                stats["out_of_scope_link_clustering_string_labels_differ"] = \
-                    stats.get("out_of_scope_link_clustering_string_labels_differ", 0) + 1
+                stats["link_clustering_string_taxa_differ"] = stats.get("link_clustering_string_taxa_differ", 0) + 1
+                d = first_diff(ref.get("aux"), o.get("aux"))
+                policy = link_policy()
+                if policy == "fixed" and not reported:
+                    fails += 1
+                    run.violation(dict(base, kind="clustering.link_clustering with string taxa: outputs differ between "
+                                       "interpreter runs with different PYTHONHASHSEED", hashseeds=[h0, h],
+                                       output="aux" + d[0], value_a=d[1], value_b=d[2],
+                                       call="link_clustering(median distance, wordlist distances (ref=scaid), wl.cols, ...)"))
+                    reported = True
+                elif policy == "known" and not stats.get("_link_known"):
+                    stats["_link_known"] = 1
+                    run.known_finding("clustering.link_clustering with string taxa depends on PYTHONHASHSEED "
+                                      "(dataset %s, hash seeds %s/%s, %s)" % (name, h0, h, d[0]))
             if h != h0 and "error" not in ref:
                 stats["fields_compared"] += len(o["e2e"])
                 d = first_diff(ref["e2e"], o["e2e"])
